@@ -60,6 +60,12 @@ func (g *G) textDecimal() dec {
 		nd := 1 + g.pick(35)
 		c := g.coefLen(nd)
 		tgt := []int{-8, -7, -6, -5, -4, -3, -1, 0, 1, 4, 5, 6, 7, 19, 20, 21, 22}[g.pick(17)]
+		if g.chance(0.35) { // where the printed exponent gains a digit, and the ends of the range
+			tgt = []int{9, 10, 11, 99, 100, 101, 999, 1000, 1001, 6110, 6111, 6144, 6145, 6176, 6142, 6143}[g.pick(16)]
+			if g.chance(0.5) {
+				tgt = -tgt
+			}
+		}
 		e := tgt - (len(c.String()) - 1)
 		lo, hi := encodeDec(g.chance(0.5), c, clampExp(6176+e))
 		return dec{lo, hi}
